@@ -624,12 +624,17 @@ fn mixcase(r: &mut Rng, s: &str) -> String {
 /// changing address sets, withdrawal by goodbye and by TTL, lost / late
 /// answers, timeouts from 1 ms to minutes, stop, several resolvers at once.
 pub fn scenario_resolve(id: u64, seed: u64, thorough: bool) -> Vec<Value> {
+    scenario_resolve_p(id, seed, thorough, true)
+}
+
+/// `resolvew`: the same histories under policy W.
+pub fn scenario_resolve_p(id: u64, seed: u64, thorough: bool, policy_d: bool) -> Vec<Value> {
     let mut r = Rng::new(seed.wrapping_mul(104729).wrapping_add(id));
     let ifs = topology(&mut r);
     let links: Vec<Vec<(usize, u32)>> = ifs.iter().map(|i| vec![(0usize, i.index)]).collect();
-    let mut sim = Sim::new(json!({"id": id, "family": "resolve"}), seed ^ id, vec![ifs.clone()], links);
+    let mut sim = Sim::new(json!({"id": id, "family": if policy_d { "resolve" } else { "resolvew" }}), seed ^ id, vec![ifs.clone()], links);
     let d = sim.spawn(0);
-    let mut run = Runner::new(sim, d, r.fork(2), true);
+    let mut run = Runner::new(sim, d, r.fork(2), policy_d);
     let horizon: u64 = if thorough { 90_000 } else { 40_000 };
     let hosts = ["Alpha.local.", "beta-Box.local."];
     let nh = r.range(1, 2) as usize;
@@ -694,8 +699,17 @@ pub fn scenario_resolve(id: u64, seed: u64, thorough: bool) -> Vec<Value> {
                     // address change: new address with cache-flush
                     if let IpAddr::V4(x) = addrs[0] {
                         let o = x.octets();
+                        let old = addrs[0];
                         addrs[0] = v4(o[0], o[1], o[2], o[3].wrapping_add(3));
-                        run.at(t, Act::Deliver { ifidx: ifc.index, src, msg: wire::response(mk(ttl, &addrs[..1])), compress: true });
+                        if r.chance(1, 2) {
+                            run.at(t, Act::Deliver { ifidx: ifc.index, src, msg: wire::response(mk(ttl, &addrs[..1])), compress: true });
+                        } else {
+                            // the old address once more with a short TTL, and the new one (cache-flush) in its last second:
+                            // the old one still ends at its own TTL
+                            let short = *r.pick(&[2u32, 3, 5]);
+                            run.at(t, Act::Deliver { ifidx: ifc.index, src, msg: wire::response(mk(short, &[old])), compress: true });
+                            run.at(t + 1000 * short as u64 - r.range(100, 900), Act::Deliver { ifidx: ifc.index, src, msg: wire::response(mk(120, &addrs[..1])), compress: true });
+                        }
                     }
                 }
             }
